@@ -21,6 +21,8 @@ REQS = {
     'P7': dict(kind='put', v=3, form='vara', start=[3], count=[1], nb='b'),
     'P8': dict(kind='put', v=1, form='vars', start=[1], count=[2], stride=[2], lay='vec:1:2'),
     'P9': dict(kind='put', v=2, form='vara', start=[4, 0], count=[1, 2]),
+    'PA': dict(kind='put', v=2, form='vara', start=[0, 0], count=[3, 2]),
+    'PB': dict(kind='put', v=3, form='vara', start=[0], count=[2]),
     'G1': dict(kind='get', v=0, form='vara', start=[0, 0], count=[2, 2]),
     'G2': dict(kind='get', v=0, form='vara', start=[0, 1], count=[2, 2]),
     'G3': dict(kind='get', v=2, form='vara', start=[0, 0], count=[2, 2], mem='schar', erange=True),
@@ -28,6 +30,8 @@ REQS = {
     'G5': dict(kind='get', v=3, form='vara', start=[0], count=[4]),
     'G6': dict(kind='get', v=1, form='vars', start=[0], count=[3], stride=[2], lay='idx'),
     'G7': dict(kind='get', v=0, form='varm', start=[0, 0], count=[2, 3], stride=[1, 1], imap=[1, 2]),
+    'G8': dict(kind='get', v=2, form='vara', start=[0, 0], count=[3, 1]),
+    'G9': dict(kind='get', v=3, form='vara', start=[1], count=[2]),
 }
 FILL_SCHAR = -127
 
@@ -249,13 +253,17 @@ def gen_A(kmax, names=None):
     out = []
     probe = NB('probe')
     for sel in ordered_selections(probe.model, kmax, names):
-        for how in ('fwd', 'rev', 'ALL', 'indep-fwd'):
+        for how in ('fwd', 'rev', 'ALL', 'indep-fwd', 'split-fwd', 'split-rev'):
             if how != 'fwd' and len(sel) == 1 and how != 'ALL': continue
             s = NB('A-%s-%s' % ('.'.join(sel), how), indep=how.startswith('indep'))
             slots = [s.post(n) for n in sel]
             if how == 'fwd': s.wait(slots)
             elif how == 'rev': s.wait(list(reversed(slots)))
             elif how == 'ALL': s.wait_kind('ALL')
+            elif how == 'split-fwd':
+                for q in slots: s.wait([q])
+            elif how == 'split-rev':
+                for q in reversed(slots): s.wait([q])
             else: s.wait(slots, how='wait')
             out.append(s.final())
     return out
